@@ -17,8 +17,9 @@
    comparison chains, slices, starred / keyword arguments, calls through an
    attribute, lambda, comprehensions, dict / set, f-strings, walrus, chained
    assignment a = b = e, subscript / attribute targets, AnnAssign, While, Pass,
-   `for ... else`, bare `return`, nested function definitions, `print` anywhere
-   but as an expression statement, `range` anywhere but as a loop iterator.
+   bare `return`, nested function definitions, `print` anywhere but as an
+   expression statement, `range` anywhere but as a loop iterator or as the only
+   argument of len / sum / all / any / min / max.
    ReplaceTypeAnn is not modelled: the argument annotations are taken AFTER it
    (they only feed Environment.types).
 
@@ -27,14 +28,18 @@
    constant folder, a raw Python value left in a node position, in-place mutation
    of a shared node that is visible, fuel exhausted).  Unmod is never a claim.
 
-   The transcription follows what the code DOES, including: the counter of
-   `_iftargN` is incremented AFTER the two branches have been visited and is
-   printed in hexadecimal starting at 2; visit_Subscript / the Pow case of
-   visit_BinOp do not visit their children; Environment.constants is never
-   invalidated (flow-insensitive, stale after a re-assignment by name);
-   visit_Assign updates the environment BEFORE visiting the value and visits a
-   tuple value twice; the row length of a matrix is taken from the OUTER
-   dimension; NameValReplacer also replaces binding occurrences.
+   The transcription follows what the code DOES (as of /repo d025bfb, i.e. after the repairs
+   cc7fed2 .. d025bfb), including: the counter of `_iftargN` / `_foritN` is incremented
+   AFTER the two branches have been visited and is printed in hexadecimal starting at 2;
+   visit_Subscript / the Pow case of visit_BinOp do not visit their children;
+   Environment.constants is never invalidated (flow-insensitive): a tuple of CONSTANTS
+   recorded for a name is still inlined under a variable index, a tuple with a
+   non-constant element is read through the name; visit_Assign updates the environment
+   BEFORE visiting the value and visits a tuple value twice; every row of a nested tuple
+   annotation is given the length of the row the code looks at (the first one for L[i][j]);
+   NameValReplacer also replaces binding occurrences; a multi-target assignment whose value
+   is one of its targets goes through `_temptup`; a loop over a name its body re-assigns
+   iterates a `_foritN` copy; the else branch of a loop is appended.
 
    No proofs here: the model must still evaluate when a proof breaks. *)
 From Coq Require Import List Bool NArith ZArith Arith String Ascii HexadecimalString HexadecimalN.
@@ -102,7 +107,7 @@ Inductive stmt :=
 | SAssign (t : target) (e : exp)
 | SAugAssign (x : string) (op : binop) (e : exp)
 | SIf (c : exp) (body orelse : list stmt)
-| SFor (x : string) (it : exp) (body : list stmt)
+| SFor (x : string) (it : exp) (body orelse : list stmt)   (* for ... else: there is no break *)
 | SReturn (e : exp)
 | SExpr (e : option exp).                 (* None: the Expr node whose value visit_Call removed *)
 
@@ -185,7 +190,8 @@ Fixpoint stmt_eqb (a b : stmt) {struct a} : bool :=
   | SAssign t e, SAssign u f => target_eqb t u && exp_eqb e f
   | SAugAssign x o e, SAugAssign y p f => String.eqb x y && binop_eqb o p && exp_eqb e f
   | SIf c b1 o1, SIf d b2 o2 => exp_eqb c d && list_eqb stmt_eqb b1 b2 && list_eqb stmt_eqb o1 o2
-  | SFor x i b1, SFor y j b2 => String.eqb x y && exp_eqb i j && list_eqb stmt_eqb b1 b2
+  | SFor x i b1 o1, SFor y j b2 o2 =>
+      String.eqb x y && exp_eqb i j && list_eqb stmt_eqb b1 b2 && list_eqb stmt_eqb o1 o2
   | SReturn e, SReturn f => exp_eqb e f
   | SExpr e, SExpr f => oexp_eqb e f
   | _, _ => false
@@ -487,9 +493,13 @@ Section Eval.
         | Some v => if truthy v then exec_list_with exec b rho else exec_list_with exec o rho
         | None => None
         end
-    | SFor x it b =>
+    | SFor x it b o =>
         match iter_vals rho it with
-        | Some vs => loop_with (exec_list_with exec b) x vs rho
+        | Some vs =>
+            match loop_with (exec_list_with exec b) x vs rho with
+            | Some (rho', None) => exec_list_with exec o rho'
+            | r => r
+            end
         | None => None
         end
     | SReturn e => match eval rho e with Some v => Some (rho, Some v) | None => None end
@@ -530,6 +540,13 @@ Definition cst_truthy (e : exp) : res bool :=
   | EConst (CInt z) => Ok (negb (Z.eqb z 0))
   | EConstNode _ => Ok true                     (* an ast node object is truthy *)
   | _ => Unmod                                  (* float / str / None *)
+  end.
+
+(* visit_IfExp: a Constant holding a tuple node is as true as the tuple is non empty *)
+Definition ifexp_truthy (e : exp) : res bool :=
+  match e with
+  | EConstNode (ETuple l) => Ok (match l with [] => false | _ => true end)
+  | _ => cst_truthy e
   end.
 
 Definition fold_unop (op : unop) (c : cst) : res exp :=
@@ -660,7 +677,7 @@ Fixpoint fold_exp (e : exp) {struct e} : res exp :=
       end
   | EIfExp c t f =>
       c' <- fold_exp c ;; t' <- fold_exp t ;; f' <- fold_exp f ;;
-      if is_constant c' then (b <- cst_truthy c' ;; Ok (if b then t' else f'))
+      if is_constant c' then (b <- ifexp_truthy c' ;; Ok (if b then t' else f'))
       else Ok (EIfExp c' t' f')
   | ETuple l => l' <- mapM fold_exp l ;; Ok (ETuple l')
   | EList l => l' <- mapM fold_exp l ;; Ok (EList l')
@@ -705,7 +722,8 @@ Fixpoint fold_stmt (s : stmt) {struct s} : res (list stmt) :=
       c' <- fold_exp c ;; b' <- flat_mapM fold_stmt b ;; o' <- flat_mapM fold_stmt o ;;
       if is_constant c' then (t <- cst_truthy c' ;; Ok (if t then b' else o'))
       else Ok [SIf c' b' o']
-  | SFor x it b => it' <- fold_exp it ;; b' <- flat_mapM fold_stmt b ;; Ok [SFor x it' b']
+  | SFor x it b o =>
+      it' <- fold_exp it ;; b' <- flat_mapM fold_stmt b ;; o' <- flat_mapM fold_stmt o ;; Ok [SFor x it' b' o']
   | SReturn e => e' <- fold_exp e ;; Ok [SReturn e']
   | SExpr None => Ok [s]
   | SExpr (Some e) => e' <- fold_exp e ;; Ok [SExpr (Some e')]
@@ -731,12 +749,15 @@ Fixpoint multi_stmt (s : stmt) {struct s} : res (list stmt) :=
   match s with
   | SAssign (TTuple elts) e =>
       names <- mapM name_of elts ;;
+      let general := Ok (SAssign (TName temptup) e :: singles (EName temptup) names 0%Z) in
       match e with
-      | EName t => Ok (singles (EName t) names 0%Z)
-      | _ => Ok (SAssign (TName temptup) e :: singles (EName temptup) names 0%Z)
+      | EName t =>
+          (* a value that is also one of the targets needs the temporary: t, a = t *)
+          if existsb (String.eqb t) names then general else Ok (singles (EName t) names 0%Z)
+      | _ => general
       end
   | SIf c b o => b' <- flat_mapM multi_stmt b ;; o' <- flat_mapM multi_stmt o ;; Ok [SIf c b' o']
-  | SFor x it b => b' <- flat_mapM multi_stmt b ;; Ok [SFor x it b']
+  | SFor x it b o => b' <- flat_mapM multi_stmt b ;; o' <- flat_mapM multi_stmt o ;; Ok [SFor x it b' o']
   | _ => Ok [s]
   end.
 
@@ -827,9 +848,10 @@ Fixpoint subst_stmt (inner : bool) (x : string) (v : exp) (s : stmt) {struct s} 
   | SIf c b o =>
       c' <- subst_exp x v c ;; b' <- mapM (subst_stmt inner x v) b ;; o' <- mapM (subst_stmt inner x v) o ;;
       Ok (SIf c' b' o')
-  | SFor y it b =>
+  | SFor y it b o =>
       if String.eqb y x then hit
-      else (it' <- subst_exp x v it ;; b' <- mapM (subst_stmt true x v) b ;; Ok (SFor y it' b'))
+      else (it' <- subst_exp x v it ;; b' <- mapM (subst_stmt true x v) b ;;
+            o' <- mapM (subst_stmt inner x v) o ;; Ok (SFor y it' b' o'))
   | SReturn e => e' <- subst_exp x v e ;; Ok (SReturn e')
   | SExpr None => Ok s
   | SExpr (Some e) => e' <- subst_exp x v e ;; Ok (SExpr (Some e'))
@@ -867,6 +889,14 @@ Definition tuple_len_of_type (t : option tyv) : res nat :=
   | _ => Raise                                           (* AttributeError *)
   end.
 
+(* _row_elts(row, default): the element types of a row of a matrix annotation *)
+Definition row_elts (row : exp) (default : list exp) : list exp :=
+  match row with
+  | ETuple l => l
+  | ESubscript _ (ETuple l) => l
+  | _ => default
+  end.
+
 Definition rw_subscript (st : rstate) (v s : exp) : res exp :=
   let keep := Ok (ESubscript v s) in
   (* "Unroll L[a] ... when L is constant": the if-chain over the elements of a tuple node *)
@@ -885,10 +915,20 @@ Definition rw_subscript (st : rstate) (v s : exp) : res exp :=
       | Some (Some t) =>
           let t' := match t with EConstNode e => e | e => e end in
           match t' with
-          | ETuple (e0 :: rest) =>
-              Ok (snd (fold_left (fun (acc : Z * exp) x =>
-                                    (fst acc + 1, EIfExp (ECompare Eq s (EConst (CInt (fst acc)))) x (snd acc))%Z)
-                                 rest (1%Z, e0)))
+          | ETuple elts0 =>
+              (* the elements of a NAMED tuple are read from the name, unless all are constants *)
+              let elts := match v with
+                          | EName n => if forallb is_constant elts0 then elts0
+                                       else map (access1 n) (seq 0 (List.length elts0))
+                          | _ => elts0
+                          end in
+              match elts with
+              | e0 :: rest =>
+                  Ok (snd (fold_left (fun (acc : Z * exp) x =>
+                                        (fst acc + 1, EIfExp (ECompare Eq s (EConst (CInt (fst acc)))) x (snd acc))%Z)
+                                     rest (1%Z, e0)))
+              | [] => Raise                                  (* elts[0]: IndexError *)
+              end
           | _ => Raise
           end
       end in
@@ -911,16 +951,19 @@ Definition rw_subscript (st : rstate) (v s : exp) : res exp :=
                                            (S (List.length l) * List.length l0 - 1))
                    end
                | Some (TyNode (ETuple [])) => Raise          (* gtype.elts[0]: IndexError *)
-               | t =>
-                   (* the row length is taken from the outer tuple *)
-                   n <- match t with
-                        | Some (TyNode (ETuple _)) => tuple_len_of_type None    (* a Tuple node has no .slice *)
-                        | _ => tuple_len_of_type t
-                        end ;;
-                   match n with
-                   | O => Raise
-                   | S m => Ok (if_exp2 nname iname i m 0 0 (n * n - 1))
+               | Some (TyNode (ESubscript _ (ETuple outer))) =>
+                   (* the row length is that of the first row (the outer length if it has no elements) *)
+                   match outer with
+                   | [] => Raise                             (* outer_tuple.elts[0]: IndexError *)
+                   | row0 :: _ =>
+                       let nj := List.length (row_elts row0 outer) in
+                       match nj with
+                       | O => Raise                          (* unbounded recursion *)
+                       | S mj => Ok (if_exp2 nname iname i mj 0 0 (List.length outer * nj - 1))
+                       end
                    end
+               | Some (TyNode (ESubscript _ (EList _))) => Unmod
+               | _ => Raise                                  (* AttributeError *)
                end
            | _ => unroll_const
            end
@@ -936,8 +979,20 @@ Definition unroll_arg (st : rstate) (arg : exp) : res (list exp) :=
   | ESubscript (EName n) s =>
       match assoc (tys st) n, s with
       | Some (TyNode (ESubscript _ (ETuple l))), EConst c =>
-          Ok (map (fun i => ESubscript (ESubscript (EName n) (EConst c)) (EConst (CInt (Z.of_nat i))))
-                  (seq 0 (List.length l)))
+          (* _sval.slice.elts[arg.slice.value]: the selected row *)
+          match val_of_cst c with
+          | Some i => match as_int i with
+                      | Some z => match index_list l z with
+                                  | Some row =>
+                                      Ok (map (fun i => ESubscript (ESubscript (EName n) (EConst c))
+                                                                   (EConst (CInt (Z.of_nat i))))
+                                              (seq 0 (List.length (row_elts row l))))
+                                  | None => Raise                 (* IndexError *)
+                                  end
+                      | None => Raise
+                      end
+          | None => Raise                                         (* TypeError *)
+          end
       | Some (TyNode (ESubscript _ (ETuple l))), EConstNode _ => Unmod
       | _, _ => Ok [arg]
       end
@@ -986,6 +1041,35 @@ Fixpoint minmax_chain (op : cmpop) (l : list exp) : res exp :=
               Ok (EIfExp (EBoolOp And (map (fun z => ECompare op x z) r)) x y)
   end.
 
+(* __call_range after the arguments have been visited: ConstantFolder, then range( *args ) *)
+Definition range_consts (args' : list exp) : res (list exp) :=
+  args'' <- mapM fold_exp args' ;;
+  if forallb is_constant args'' then
+    match all_some (map (fun a => match a with
+                                  | EConst c => match val_of_cst c with Some v => as_int v | None => None end
+                                  | _ => None end) args'') with
+    | Some zs => match range_of zs with
+                 | Some l => if (2000 <? List.length l)%nat then Unmod
+                             else Ok (map (fun z => EConst (CInt z)) l)
+                 | None => Raise
+                 end
+    | None => Unmod                                      (* float / str arguments *)
+    end
+  else Raise.                                            (* "Range call on not constant arguments" *)
+
+Definition is_seqfun (f : string) : bool :=
+  existsb (String.eqb f) ["len"; "sum"; "any"; "all"; "min"; "max"].
+
+(* len / sum / any / all / min / max of an unrolled argument *)
+Definition call_on_list (f : string) (l : list exp) : res exp :=
+  if String.eqb f "len" then Ok (EConst (CInt (Z.of_nat (List.length l))))
+  else if String.eqb f "sum" then sum_chain l
+  else if String.eqb f "any" then Ok (EBoolOp Or l)
+  else if String.eqb f "all" then Ok (EBoolOp And l)
+  else if String.eqb f "max" then minmax_chain Gt l
+  else if String.eqb f "min" then minmax_chain LtE l
+  else Unmod.
+
 Fixpoint rw_exp (st : rstate) (e : exp) {struct e} : res exp :=
   match e with
   | EName x => if dunder x then Raise else Ok e
@@ -1010,6 +1094,7 @@ Fixpoint rw_exp (st : rstate) (e : exp) {struct e} : res exp :=
       end
   | ESubscript v s => rw_subscript st v s
   | ECall f args =>
+      let generic :=
       args' <- mapM (rw_exp st) args ;;
       if String.eqb f "print" || String.eqb f "range" then Unmod     (* only as a statement / an iterator *)
       else if String.eqb f "len" then
@@ -1029,28 +1114,16 @@ Fixpoint rw_exp (st : rstate) (e : exp) {struct e} : res exp :=
       else if String.eqb f "min" || String.eqb f "max" then
         l <- match args' with [a] => unroll_arg st a | _ => Ok args' end ;;
         minmax_chain (if String.eqb f "max" then Gt else LtE) l
-      else Ok (ECall f args')
-  end.
-
-(* the elements a for loop is unrolled over *)
-Definition rw_iter (st : rstate) (it : exp) : res (list exp) :=
-  match is_call "range" it with
-  | Some args =>
-      args' <- mapM (rw_exp st) args ;;
-      args'' <- mapM fold_exp args' ;;
-      if forallb is_constant args'' then
-        match all_some (map (fun a => match a with
-                                      | EConst c => match val_of_cst c with Some v => as_int v | None => None end
-                                      | _ => None end) args'') with
-        | Some zs => match range_of zs with
-                     | Some l => if (2000 <? List.length l)%nat then Unmod
-                                 else Ok (map (fun z => EConst (CInt z)) l)
-                     | None => Raise
-                     end
-        | None => Unmod                                      (* float / str arguments *)
-        end
-      else Raise                                             (* "Range call on not constant arguments" *)
-  | None => it' <- rw_exp st it ;; unroll_arg st it'
+      else Ok (ECall f args') in
+      (* the only argument is a range(...): the visit expands it to a list of values, which
+         __unroll_arg turns into constants *)
+      match args with
+      | [ECall g rargs] =>
+          if String.eqb g "range" && is_seqfun f then
+            rargs' <- mapM (rw_exp st) rargs ;; l <- range_consts rargs' ;; call_on_list f l
+          else generic
+      | _ => generic
+      end
   end.
 
 Definition wrap_body (st : rstate) (test : string) (b : stmt) : res stmt :=
@@ -1133,6 +1206,40 @@ Section Rolls.
 End Rolls.
 
 Definition iftarg_name (u : N) : string := String.append iftarg_prefix (hex_of_N u).
+Definition forit_prefix : string := "_forit".
+Definition is_forit (x : string) : bool := prefix forit_prefix x.
+Definition forit_name (u : N) : string := String.append forit_prefix (hex_of_N u).
+
+(* does an Assign / AugAssign anywhere inside the statements target the plain name [a] ? *)
+Fixpoint assigns_name (a : string) (s : stmt) {struct s} : bool :=
+  match s with
+  | SAssign (TName y) _ => String.eqb y a
+  | SAssign (TTuple _) _ => false
+  | SAugAssign y _ _ => String.eqb y a
+  | SIf _ b o => existsb (assigns_name a) b || existsb (assigns_name a) o
+  | SFor _ _ b o => existsb (assigns_name a) b || existsb (assigns_name a) o
+  | SReturn _ | SExpr _ => false
+  end.
+
+(* visit_For, before the unrolling: the statements emitted first (the `_foritN = name` copy of
+   an iterated name the body re-assigns), the elements, the state *)
+Definition for_iter (st : rstate) (it : exp) (b : list stmt) : res (list stmt * list exp * rstate) :=
+  match is_call "range" it with
+  | Some args => args' <- mapM (rw_exp st) args ;; l <- range_consts args' ;; Ok ([], l, st)
+  | None =>
+      it' <- rw_exp st it ;;
+      match it' with
+      | EName a =>
+          if existsb (assigns_name a) b then
+            let u := (uq st + 1)%N in
+            let snap := forit_name u in
+            ' (l0, st1) <- rw_assign (mkst (tys st) (cns st) u) snap (EName a) ;;
+            l <- unroll_arg st1 (EName snap) ;;
+            Ok (l0, l, st1)
+          else (l <- unroll_arg st it' ;; Ok ([], l, st))
+      | _ => l <- unroll_arg st it' ;; Ok ([], l, st)
+      end
+  end.
 
 Fixpoint rw_stmt (fuel : nat) (st : rstate) (s : stmt) {struct fuel} : res (list stmt * rstate) :=
   match fuel with
@@ -1154,9 +1261,12 @@ Fixpoint rw_stmt (fuel : nat) (st : rstate) (s : stmt) {struct fuel} : res (list
           bl <- mapM (wrap_body st3 test) b' ;;
           ol <- mapM (wrap_else st3 test) o' ;;
           Ok (SAssign (TName test) c' :: bl ++ ol, st3)
-      | SFor x it b =>
-          elems <- rw_iter st it ;;
-          rolls_with (rw_stmt n) x b elems st
+      | SFor x it b o =>
+          ' (pre, elems, st0) <- for_iter st it b ;;
+          ' (l1, st1) <- rolls_with (rw_stmt n) x b elems st0 ;;
+          (* the loop is fully unrolled (there is no break): its else branch always runs *)
+          ' (o', st2) <- rw_list_with (rw_stmt n) st1 o ;;
+          Ok (pre ++ l1 ++ o', st2)
       | SReturn e => e' <- rw_exp st e ;; Ok ([SReturn e'], st)
       | SExpr None => Ok ([s], st)
       | SExpr (Some e) =>
@@ -1216,6 +1326,10 @@ Definition const_iter (it : exp) : bool :=
 
 Section Guard.
   Variable okn : string -> bool.          (* the names that may occur *)
+  (* the typed tuple arguments (annotation Tuple[...]) with their length: they may be iterated
+     over and unpacked, and are never re-bound *)
+  Variable plen : string -> option nat.
+  Definition prot (a : string) : bool := match plen a with Some _ => true | None => false end.
 
   (* [lv]: the enclosing loop variables (they are replaced by constants before the rewriter
      sees the expression): the only names that may index a subscript *)
@@ -1239,20 +1353,41 @@ Section Guard.
     | ECall f args => negb (existsb (String.eqb f) special_calls) && forallb (gexp lv) args
     end.
 
-  Definition gname (e : exp) : bool := match e with EName x => okn x | _ => false end.
+  (* the names that may be bound *)
+  Definition okt (x : string) : bool := okn x && negb (prot x).
+  Definition gname (e : exp) : bool := match e with EName x => okt x | _ => false end.
+
+  (* the typed tuple argument a loop iterates over *)
+  Definition name_iter (it : exp) : option string :=
+    match it with EName a => if prot a then Some a else None | _ => None end.
+  Definition giter (lv : list string) (it : exp) : bool :=
+    match is_call "range" it with
+    | Some args => forallb (gexp lv) args
+    | None => const_iter it || match name_iter it with Some a => okn a | None => false end
+    end.
+  (* the variable of a loop over range / constants is replaced by a constant and may index a
+     subscript inside the body; the variable of a loop over a typed argument may not *)
+  Definition body_lv (x : string) (lv : list string) (it : exp) : list string :=
+    match name_iter it with Some _ => lv | None => x :: lv end.
 
   Fixpoint gstmt (lv : list string) (s : stmt) {struct s} : bool :=
     match s with
-    | SAssign (TName x) e => okn x && gexp lv e
+    | SAssign (TName x) e => okt x && gexp lv e
     | SAssign (TTuple l) e =>
         forallb gname l && gexp lv e &&
-        match tuple_lit_len e with Some n => Nat.eqb n (List.length l) | None => false end
-    | SAugAssign x op e => okn x && negb (binop_eqb op Pow) && gexp lv e
+        match tuple_lit_len e with
+        | Some n => Nat.eqb n (List.length l)
+        | None => match e with
+                  | EName a => match plen a with Some n => Nat.eqb n (List.length l) | None => false end
+                  | _ => false
+                  end
+        end
+    | SAugAssign x op e => okt x && negb (binop_eqb op Pow) && gexp lv e
     | SIf c b o => gexp lv c && forallb (gstmt lv) b && forallb (gstmt lv) o
-    | SFor x it b =>
-        okn x &&
-        (match is_call "range" it with Some args => forallb (gexp lv) args | None => const_iter it end) &&
-        forallb (gstmt (x :: lv)) b
+    | SFor x it b o =>
+        okt x && giter lv it &&
+        (match name_iter it with Some _ => negb (existsb (String.eqb x) lv) | None => true end) &&
+        forallb (gstmt (body_lv x lv it)) b && forallb (gstmt lv) o
     | SReturn e => gexp lv e
     | SExpr None => true
     | SExpr (Some e) => gexp lv e
@@ -1262,11 +1397,35 @@ End Guard.
 (* source programs: no name starts with an underscore *)
 Definition user_name (x : string) : bool := negb (prefix "_" x).
 (* after ReplaceMultiTargetAssign: `_temptup` may occur; the rewriter's own names may not *)
-Definition visible (x : string) : bool := negb (dunder x) && negb (is_iftarg x).
+Definition visible (x : string) : bool := negb (dunder x) && negb (is_iftarg x) && negb (is_forit x).
 
 (* THE GUARD of the preservation theorem.  Inside: names not starting with `_`; bool / int
    constants only; no `**`; subscripts indexed by a constant or by an enclosing loop variable;
    no call of len / sum / all / any / min / max / abs / print / ord / chr, range only as a loop
-   iterator; tuple targets only with a literal tuple / list of the same length on the right;
-   loops over range(...) or over a literal tuple / list of bool / int constants. *)
-Definition a2a_guard (f : fundef) : bool := forallb (gstmt user_name []) (f_body f).
+   iterator; tuple targets only with a literal tuple / list of the same length, or an argument
+   annotated Tuple[...] of that length, on the right;
+   loops over range(...), over a literal tuple / list of bool / int constants, or over an argument
+   annotated Tuple[...] (Qlist / Qmatrix after ReplaceTypeAnn) that is never re-bound. *)
+(* the typed tuple arguments of a function, with their length: what Environment.types holds for
+   them when the rewriter starts *)
+Definition plen_of (f : fundef) (a : string) : option nat :=
+  match assoc (tys (init_state (f_args f))) a with
+  | Some (TyNode (ESubscript (EName tn) (ETuple l))) =>
+      if String.eqb tn "Tuple" && user_name a then Some (List.length l) else None
+  | _ => None
+  end.
+Definition a2a_guard (f : fundef) : bool := forallb (gstmt user_name (plen_of f) []) (f_body f).
+
+(* the environment gives every typed tuple argument a tuple of the annotated length *)
+Definition conforms (f : fundef) (rho : env) : Prop :=
+  forall a n, plen_of f a = Some n -> exists vs, rho a = Some (VTup vs) /\ List.length vs = n.
+
+(* decidable form of [conforms] (sufficient: P_A2A.conforms_check) *)
+Definition conforms_b (f : fundef) (rho : env) : bool :=
+  forallb (fun x => match plen_of f x with
+                    | Some n => match rho x with
+                                | Some (VTup vs) => Nat.eqb (List.length vs) n
+                                | _ => false
+                                end
+                    | None => true
+                    end) (map fst (f_args f)).
